@@ -9,19 +9,21 @@ type reopenVar struct {
 }
 
 type Alpha struct {
-	Writes      bool
+	Writes       bool
 	RemoveAbsent bool
-	SetNil      bool
-	Save        bool
-	Rollback    bool
-	Reopen      []reopenVar // variants; nil = no reopen
-	ReopenOlder bool        // reopen may also load an older retained version
-	LoadVersion bool
-	DelTo       bool
-	LVFO        bool
-	DelFrom     bool
-	MaxVersions int64 // stop committing new versions beyond this latest (0 = unlimited)
-	MaxPrunes   int   // max number of successful-or-not DeleteVersionsTo calls (0 = unlimited)
+	SetNil       bool
+	Save         bool
+	Rollback     bool
+	Reopen       []reopenVar // variants; nil = no reopen
+	ReopenOlder  bool        // reopen may also load an older retained version
+	LoadVersion  bool
+	DelTo        bool
+	LVFO         bool
+	DelFrom      bool
+	MaxVersions  int64 // stop committing new versions beyond this latest (0 = unlimited)
+	MaxPrunes    int   // max number of successful-or-not DeleteVersionsTo calls (0 = unlimited)
+	Reads        bool  // read-only deviations (bounded by Spec.MaxReads)
+	Import       bool  // export/import of a retained version (plain and compressed)
 }
 
 func countKind(hist []Op, k OpKind) int {
@@ -58,6 +60,26 @@ func (a Alpha) Ops(w *World, s *Spec) []Op {
 	if a.Rollback {
 		ops = append(ops, Op{Kind: OpRollback})
 	}
+	if a.Reads && w.NReads < s.MaxReads {
+		for arg := 0; arg < nReadCalls; arg++ {
+			switch {
+			case arg <= 2 || arg == 8:
+				for _, k := range s.Keys[:min(2, len(s.Keys))] {
+					ops = append(ops, Op{Kind: OpRead, Arg: arg, Key: k})
+				}
+			case arg < 9:
+				ops = append(ops, Op{Kind: OpRead, Arg: arg})
+			case arg == 9:
+				for _, v := range m.Versions() {
+					ops = append(ops, Op{Kind: OpRead, Arg: arg, Ver: v, Key: s.Keys[0]})
+				}
+			default:
+				for _, v := range m.Versions() {
+					ops = append(ops, Op{Kind: OpRead, Arg: arg, Ver: v})
+				}
+			}
+		}
+	}
 	if w.NMaint >= s.MaxMaint {
 		return ops
 	}
@@ -88,6 +110,11 @@ func (a Alpha) Ops(w *World, s *Spec) []Op {
 	if a.LVFO && m.Latest > 0 {
 		for v := int64(1); v <= m.Latest+1; v++ {
 			ops = append(ops, Op{Kind: OpLVFO, Ver: v})
+		}
+	}
+	if a.Import {
+		for _, v := range m.Versions() {
+			ops = append(ops, Op{Kind: OpImport, Ver: v}, Op{Kind: OpImport, Ver: v, Arg: 1})
 		}
 	}
 	if a.DelFrom && m.Latest > 0 {
@@ -122,7 +149,7 @@ func probesFor(keys [][]byte) [][]byte {
 		add(k)
 	}
 	for _, k := range keys {
-		add(append(append([]byte{}, k...), 0))    // immediate successor
+		add(append(append([]byte{}, k...), 0))   // immediate successor
 		add(append(append([]byte{}, k...), 'z')) // extension
 		if len(k) > 1 {
 			add(k[:len(k)-1]) // proper prefix
